@@ -172,7 +172,8 @@ prop("C04", run="^TestC04", level="exploration",
           "and EVERY annotated field (<= 24 per base, evenly spread) x every hostile value and its own value +-1, batched in one worker call that resumes behind items lost to memory exhaustion (base left after 16 such items). Each call runs in a worker process (3 GiB address space). Oracle: returns value or error; recovered panic, worker death not caused by memory exhaustion, or no return within 60 s twice = violation. "
           "Non-trivial = input differs from the valid encoding; distinct by (entry point, input hash)",
      assumptions=["memory exhaustion is not one of the property's failure modes: a worker killed by its address-space limit is counted as 'skipped: resource exhaustion', never as a violation",
-                  "error-path nesting of type descriptors is capped at depth 1500 (the library's error wrapping is super-quadratic: slow but terminating); well-formed nesting goes to the 1 MiB maximum",
+                  "error-path nesting of type descriptors is capped at depth 1500 (the library re-formats the error chain at every level: quadratic in the depth of the failure, minutes of CPU at 10000 levels; slow but terminating); well-formed nesting goes to the 1 MiB maximum and is altered within its first 3000 bytes only",
+                  "non-termination is judged on the worker's CPU time: 60 s burned, or 60 s elapsed with the worker idle, twice; a call that is merely slow on a busy machine is given up after 10 minutes as 'slow' and not judged",
                   "follow-up calls on decoded descriptors (AsCql, NewCodec, PreferredGoType) only for descriptors <= 4 KiB (quadratic in depth)"],
      text="Structure-aware mutational fuzzing driven by rapid, one isolated execution per case, over all decoding entry points; finds panics/faults/hangs, cannot prove their absence.",
      note="Trusted: worker isolation and death classification (stderr signature); reference encoders supplying valid encodings and field annotations.",
